@@ -183,7 +183,8 @@ pub fn plan(prop: &str, tier: &str) -> (PropMeta, Vec<Job>) {
         },
         level: "model_checking",
         rule: format!(
-            "every history of exactly {depth} operations over the alphabet (largest variant: {sample_alpha:?}) is executed against the real server from a fresh copy of a journalled template directory, for each of {} storage configurations; the oracle runs after every step; a state is distinct by (configuration, digest of the data directory, in-memory partition/segment facts)",
+            "every history of exactly {depth} operations{} over the alphabet (largest variant: {sample_alpha:?}) is executed against the real server from a fresh copy of a journalled template directory, for each of {} storage configurations; the oracle runs after every step; a state is distinct by (configuration, digest of the data directory, in-memory partition/segment facts)",
+            if !quick && prop == "C03" { " (on the corner set: threshold 2, small segments, no fsync, no dedup; two operations fewer on the other configurations; one more on the retention configurations)" } else { " (one more on the retention configurations)" },
             cfgs.len()
         ),
         bounds: json!({
